@@ -86,7 +86,7 @@ public:
         if (x <= 0 || x >= 1) {
             throw std::invalid_argument("icdf: x must be between 0 and 1.0");
         }
-        return a * pow(-(log(1 - x)), (1.0 / b));
+        return b * pow(-(log(1 - x)), (1.0 / a));
     }
 };
 
